@@ -27,3 +27,40 @@ META["C04"] = {
     "text": "Exactly-once, order stability and placement are proved for every list and every item of the model (no bound). Cross-replica agreement of the order is convergence (C01). The harness tracks every unit id on every replica after every step: duplicates and order flips between any two states of any two replicas are violations.",
     "note": "Trusted: faithfulness of yata_insert to Item::resolve_conflict at unit granularity (checked by the per-step tombstone-order correspondence).",
 }
+
+META["C01"] = {
+    "category": "proof", "design_ref": "DESIGN.md section 6, C01",
+    "technique": "Coq: unbounded theorems that the set of integrated operations and the deletion flags are schedule-independent; kernel-checked exhaustive enumeration of all histories of <= 5 insertions x 3 clients / 6 x 2 / 4 x 4 for the order of concurrent insertions; per-step correspondence of the real replicas (item order incl. tombstones) with the model's render under adversarial schedules and all permutations of short histories",
+    "text": "Convergence is a statement over every history x schedule. What is integrated and what is deleted is proved schedule-independent without bound. The order produced by the stateful Yjs conflict scan is proved convergent for the complete finite universes named in the theorems and is otherwise tied to the implementation by comparing, after every single delivery on every replica, the full item order (tombstones included, expanded to units) with the model's canonical rendering of the replica's integrated id set. The full unbounded order-convergence statement is kept as an unproved Definition (partial).",
+    "note": "Partial: no unbounded proof of order convergence for items with right origins. Trusted: unit-level abstraction of blocks, harness printers. The pinned tree violated C01 through the stuck stash (fixed, 0a72352).",
+}
+META["C05"] = {
+    "category": "proof", "design_ref": "DESIGN.md section 6, C05",
+    "technique": "Coq invariants of the model's keyed lists (all but the right-most entry deleted, in every reachable state; deletion monotone; a delete set deletes only what it names and the subtrees below) + happened-before oracle computed by the harness on the real replicas + per-step correspondence",
+    "text": "The visible value of a key is the right-most entry of its chain; the theorems show that every other entry is deleted in every reachable state, that a deleted entry never becomes visible again through any later delivery, and that a removal erases only the ids it names (so a concurrent write is never erased by it). The harness computes the causal order itself and checks the register semantics on every causally closed state of every replica.",
+    "note": "Which concurrent WRITE wins is decided by client id as in Yjs (not part of the property). Trusted: unit model, harness happened-before computation.",
+}
+META["C06"] = {
+    "category": "proof", "design_ref": "DESIGN.md section 6, C06",
+    "technique": "Coq theorems at operation-set level (state vector = first gap; diff against any vector below the receiver's is complete and leaves nothing stashed; monotone, idempotent, self-diff no-op) + all-pairs exchange on real replica states with gaps and stashes, v1/v2, own and stale vectors",
+    "text": "The diff theorem quantifies over every pair of replica states and every vector the peer could legitimately hold; the harness exercises all ordered pairs of states reached in seeded histories, including stale vectors.",
+    "note": "Known finding (KNOWN-FINDING line): content that the sender had integrated can end up in the receiver's stash because yrs stashes the rest of a client's blocks behind one block with a missing dependency; the receiver reports missing updates and integrates it once the gap is filled. Repaired on the way: write_blocks_from ignored blocks behind a gap (f694c28), Skip length mis-encoded (e7abf27).",
+}
+META["C07"] = {
+    "category": "proof", "design_ref": "DESIGN.md section 6, C07",
+    "technique": "Coq theorem by induction over transactions (a follower fed by 'what became integrated' holds the leader's ids after every step, stash empty) + followers fed by the real v1 and v2 event streams compared after every leader transaction, model follower through the Coq decoder, event-count oracle",
+    "text": "Completeness of the log is an induction over all transaction sequences in the model; the harness ties the real encode_update output to it by decoding every event with the model's decoder and by comparing real followers after every transaction, for local edits, remote applies in any order, undo/redo and gc.",
+    "note": "Pinned-tree defect repaired: an out-of-order remote apply made the leader emit an empty event (f694c28).",
+}
+META["C08"] = {
+    "category": "proof", "design_ref": "DESIGN.md section 6, C08",
+    "technique": "Coq: the integrated set after delivering a merged / permuted / duplicated / re-batched collection of updates equals the one after sequential delivery (characterisation as a least closed set); delete-set union laws; + differential comparison of merge_updates / diff_updates / encode_state_vector_from_update with sequential application on real update pools, v1 and v2",
+    "text": "The algebra is proved at operation-set level; the byte-level k-way merge is compared with sequential application on pools with overlaps, duplicates, gaps, Skip and GC blocks.",
+    "note": "The merge control flow itself is not transcribed (its specification is the model). A stash lag of the merged form is accepted only when it vanishes after delivering the whole history.",
+}
+META["C13"] = {
+    "category": "proof", "design_ref": "DESIGN.md section 6, C13",
+    "technique": "Coq: re-delivering the operations a replica had integrated to an empty document integrates exactly them, deletion flags are a function of the delete set; + restore of every snapshot after every later step on real documents, v1/v2, codec round trip, gc refusal",
+    "text": "Block slicing at the snapshot clock is what the unit model abstracts away, so its defects surface in the correspondence: three were found and repaired on the pinned tree (8d6075d, 9152c72).",
+    "note": "Known finding: a snapshot taken while the store has gaps (operations integrated behind a missing block) cannot be restored exactly, because a state-vector shaped snapshot cannot describe them.",
+}
